@@ -271,6 +271,8 @@ package state
 //@   assumes existing_maps_untouched: mapsFrame(string, bool, nil)
 //@   assumes identities_in_a_new_map: result1 == nil || isfresh(result1)
 //@   at json.Unmarshal assert [C07] the_kind_of_signature_is_read_when_several_signers_are_listed: len(pubkeys) > 1 && (tx != nil && tx.XuperSign != nil ==> $0 == tx.XuperSign.Signature)
+//@   ensures [C07] several_signers_only_under_a_multi_signature: result0 && tx != nil && tx.XuperSign != nil && len(tx.XuperSign.PublicKeys) > 1 ==> xuperSig.SigType == "MultiSig"
+//@   loop 2 invariant one_key_per_listed_public_key: 0 <= $i && $i <= len($range) && len(pubkeys) == $i
 //@   at VerifyXuperSignature assert [C07] the_matched_keys_and_this_digest: $0 == pubkeys && $2 == digestHash && (tx != nil && tx.XuperSign != nil ==> $1 == tx.XuperSign.Signature)
 // A transaction passes the contract-permission check only if EVERY request of it passes the
 // rule of the method it invokes, judged with the signers that were authenticated.
